@@ -32,6 +32,7 @@ type c11Cfg struct {
 	ByValue bool // every goroutine uses its own copy of the allocator value
 	Bound   int  // preemption bound, -1 unbounded
 	EnvCost int  // cost of a non-default pool answer against the bound
+	Warm    bool // one Get/Put on the allocator before it is copied / shared (set-up, not scheduled)
 }
 
 type c11Case struct {
@@ -60,6 +61,9 @@ func (h *c11H) Init() {
 	poolctl.ResetSched()
 	h.resetShared()
 	p := dyn.NewPool(h.t, al(h.cfg.C, h.cfg.L, h.cfg.K))
+	if h.cfg.Warm {
+		p.Put(p.Get())
+	}
 	for i := 0; i < h.cfg.G; i++ {
 		h.fails[i] = nil
 		if h.cfg.ByValue {
@@ -232,7 +236,18 @@ func c11Configs(tier string, race bool) []c11Cfg {
 			}
 		}
 	}
+	// long buffers (>= 1024 samples, > 32 KiB), allocator warmed up before it is copied
+	addBig := func(G, M, bound, envCost int) {
+		for _, s := range []sh{{"float64", 2, 0, 512}, {"int8", 1, 0, 1100}, {"float64", 1, 0, 5000}} {
+			for _, bv := range []bool{false, true} {
+				for _, warm := range []bool{false, true} {
+					r = append(r, c11Cfg{T: s.t, C: s.C, L: s.L, K: s.K, G: G, M: M, ByValue: bv, Bound: bound, EnvCost: envCost, Warm: warm})
+				}
+			}
+		}
+	}
 	if race {
+		addBig(2, 1, 2, 0)
 		// the happens-before monitor: bounded exploration (no state pruning in race mode)
 		if tier == "thorough" {
 			add(2, 1, -1, 0)
@@ -250,9 +265,11 @@ func c11Configs(tier string, race bool) []c11Cfg {
 		return r
 	}
 	add(2, 1, -1, 0)
+	addBig(2, 1, -1, 0)
 	add(2, 2, -1, 0)
 	add(3, 1, -1, 0)
 	if tier == "thorough" {
+		addBig(3, 1, 2, 1)
 		add(3, 2, -1, 0)
 		add(4, 1, -1, 0)
 		add(4, 2, 2, 1)
